@@ -45,6 +45,12 @@ def run_case(case, rec, cid):
     set_mode(case["mode"])
     rec.begin(cid)
     pts = [mk_tp(r) for r in case["pool"]]
+    # members derived by arithmetic from points that have ALREADY been hashed / compared (sets, dict keys)
+    from harness.common import Duration
+    for i, secs in case.get("derive", []):
+        hash(pts[i])
+        pts[i] == pts[i]
+        pts.append(pts[i] + Duration(seconds=secs))
     prj = [proj_tp(p) for p in pts]
     ids = {}
 
@@ -88,7 +94,15 @@ def expand(job):
             else:
                 pool.append(gen.rand_point(rnd, m, wide=False, whole=rnd.random() < 0.7))
         rnd.shuffle(pool)
-        yield {"mode": sp, "pool": pool}
+        derive = []
+        for _k in range(2):
+            i = rnd.randrange(len(pool))
+            if "dec" in pool[i] or pool[i]["prec"] != "hms":
+                continue
+            secs = rnd.choice([1, -1, 3600, 86400, -86400, 90061])
+            pool.append(shifted(rnd, m, pool[i], secs))        # the same instant, built fresh
+            derive.append([i, secs])
+        yield {"mode": sp, "pool": pool, "derive": derive}
 
 
 def jobs(tier, seed):
